@@ -25,6 +25,15 @@ def run(ctx):
            cells=ph, timeout=tmo, per_path=60, twin_fn='tw_k345', twin_pre=[{'pos_i': 5, 'handler_i': 0}], confirm='confirm_k345',
            desc='non-Response values (str, None, int, dict, list, float), non-breaking errors, early Responses, and raised/returned errors whose detail/message/error_type are arbitrary objects, at the selected position'),
     ]
+    obs += [
+        Ob('handler_isolation', 'ob_handler_isolation', '', packed=[('dbg_a', 2), ('dbg_b', 2), ('who_reraises', 3), ('order', 2)], timeout=tmo, confirm='confirm_handler_isolation',
+           desc='two applications on their default (plain/debug) error handlers, re-raising switched on for one of them after construction, a third one created later: '
+                'an uncaught exception escapes only from the application configured to re-raise'),
+        Ob('converter_failure', 'ob_converter_failure', '', packed=[('patt_i', 7), ('tail_i', 10), ('dbg', 2), ('fallback', 2)],
+           cells=[('patt%d' % i, [{'patt_i': i}]) for i in range(7)], timeout=tmo, confirm='confirm_converter_failure',
+           desc='typed URL bindings (int/float/str x single/optional/multi) on paths their regex accepts but the converter rejects (4301+ digit numbers, repeated slashes, huge floats): '
+                'a complete 200/404 response through the WSGI client, never an exception, with and without a fallback route'),
+    ]
     res = run_obligations('C08', 'harness.c08', obs, ctx.tier)
     res.functions_encoded += ['Application.dispatch', 'ErrorHandler.uncaught_to_response/render_error', 'ContextualErrorHandler.uncaught_to_response',
                               'BoundRoute.execute/execute_error', 'default_render_error', 'sinter.inject', 'generated request/endpoint/render chains of the route',
